@@ -51,7 +51,19 @@ def parse_call(message, file):
         raise ValueError("cannot parse call expression")
     ns = dict(vars(load(file)))
     ev = lambda x: eval(compile(ast.Expression(x), "<ce>", "eval"), ns)  # noqa
-    return [ev(a) for a in node.args], {k.arg: ev(k.value) for k in node.keywords}
+    # `f(*[...], **{...})` is how run.py --replay re-renders a stored counterexample
+    args, kwargs = [], {}
+    for a in node.args:
+        if isinstance(a, ast.Starred):
+            args.extend(ev(a.value))
+        else:
+            args.append(ev(a))
+    for k in node.keywords:
+        if k.arg is None:
+            kwargs.update(ev(k.value))
+        else:
+            kwargs[k.arg] = ev(k.value)
+    return args, kwargs
 
 
 def replay(file, fn_name, args, kwargs):
